@@ -8,6 +8,7 @@ import (
 	"fmt"
 	"os"
 	"path/filepath"
+	"regexp"
 	"runtime"
 	"runtime/debug"
 	"sort"
@@ -32,7 +33,64 @@ var (
 	flagHashes  = flag.Bool("verif.hashes", false, "print seed and event hash per run")
 	flagMinTime = flag.Duration("verif.mintime", 60*time.Second, "minimisation time budget")
 	flagMode    = flag.String("verif.mode", "", "harness specific mode")
+	flagKnown   = flag.String("verif.known", "", "known_findings.json (status=finding entries are counted, not reported as violations)")
 )
+
+type knownFinding struct {
+	ID        string `json:"id"`
+	Property  string `json:"property"`
+	Status    string `json:"status"`
+	Signature struct {
+		Oracle string `json:"oracle"`
+		Regex  string `json:"signature_regex"`
+	} `json:"signature"`
+	re *regexp.Regexp
+}
+
+var known []*knownFinding
+var knownLoaded bool
+
+func loadKnown() {
+	if knownLoaded || *flagKnown == "" {
+		return
+	}
+	knownLoaded = true
+	b, err := os.ReadFile(*flagKnown)
+	if err != nil {
+		return
+	}
+	var f struct {
+		Findings []*knownFinding `json:"findings"`
+	}
+	if json.Unmarshal(b, &f) != nil {
+		return
+	}
+	for _, k := range f.Findings {
+		if k.Status != "finding" {
+			continue
+		}
+		if k.Signature.Regex != "" {
+			k.re, _ = regexp.Compile(k.Signature.Regex)
+		}
+		known = append(known, k)
+	}
+}
+
+func matchKnown(property, oracle, signature string) string {
+	for _, k := range known {
+		if k.Property != property {
+			continue
+		}
+		if k.Signature.Oracle != "" && k.Signature.Oracle != oracle {
+			continue
+		}
+		if k.re != nil && !k.re.MatchString(signature) {
+			continue
+		}
+		return k.ID
+	}
+	return ""
+}
 
 // Tier returns the tier name.
 func Tier() string { return *flagTier }
@@ -61,6 +119,8 @@ type Rec struct {
 	Abort     string // harness trouble (not a violation)
 	SimTime   time.Duration
 	Quiet     bool
+	Property  string
+	Known     map[string]int // known findings met in this run (id -> count)
 	mu        sync.Mutex
 }
 
@@ -68,6 +128,14 @@ type Rec struct {
 func (r *Rec) Fail(oracle, signature, format string, args ...any) {
 	r.mu.Lock()
 	defer r.mu.Unlock()
+	if id := matchKnown(r.Property, oracle, signature); id != "" {
+		// a recorded genuine defect: counted, reported as KNOWN-FINDING by check.py, the run goes on
+		if r.Known == nil {
+			r.Known = map[string]int{}
+		}
+		r.Known[id]++
+		return
+	}
 	if r.Violation == nil {
 		r.Violation = &Violation{Oracle: oracle, Signature: signature, Message: fmt.Sprintf(format, args...)}
 	}
@@ -140,6 +208,7 @@ type Summary struct {
 	FirstSeed   uint64           `json:"first_seed"`
 	LastSeed    uint64           `json:"last_seed"`
 	Determinism map[string]int   `json:"determinism,omitempty"`
+	Known       map[string]int   `json:"known_findings,omitempty"`
 }
 
 // ViolationRec is one reported violation.
@@ -167,6 +236,7 @@ func runOnce(t *testing.T, tape *simrt.Tape, run RunFunc, keep int) (o outcome) 
 func Main(t *testing.T, property string, run RunFunc) {
 	harness := t.Name()
 	debug.SetGCPercent(400)
+	loadKnown()
 	if *flagReplay != "" {
 		replayMain(t, property, harness, run)
 		return
@@ -185,7 +255,7 @@ func Main(t *testing.T, property string, run RunFunc) {
 		seed := *flagSeed + uint64(i)**flagStride
 		sum.LastSeed = seed
 		tape := simrt.NewTape(seed)
-		rec := &Rec{T: t, Tape: tape}
+		rec := &Rec{T: t, Tape: tape, Property: property}
 		run(rec)
 		sum.Runs++
 		if rec.Abort != "" {
@@ -224,6 +294,12 @@ func Main(t *testing.T, property string, run RunFunc) {
 					fmt.Printf("EV seed=%d %s\n", seed, e.String())
 				}
 			}
+		}
+		for k, v := range rec.Known {
+			if sum.Known == nil {
+				sum.Known = map[string]int{}
+			}
+			sum.Known[k] += v
 		}
 		sum.SimTimeS += rec.SimTime.Seconds()
 		for k, v := range rec.Counters {
@@ -293,7 +369,7 @@ func report(t *testing.T, property, harness string, seed uint64, tape *simrt.Tap
 			return false
 		}
 		tp := simrt.ReplayTape(cand)
-		r := &Rec{T: t, Tape: tp, Quiet: true}
+		r := &Rec{T: t, Tape: tp, Quiet: true, Property: property}
 		run(r)
 		if r.Abort == "" && sameClass(r.Violation, rec.Violation) {
 			best = tp.Consumed()
@@ -310,7 +386,7 @@ func report(t *testing.T, property, harness string, seed uint64, tape *simrt.Tap
 	}
 	// final run with the full event log kept
 	tp := simrt.ReplayTape(best)
-	final := &Rec{T: t, Tape: tp, Quiet: true}
+	final := &Rec{T: t, Tape: tp, Quiet: true, Property: property}
 	KeepAllEvents = true
 	run(final)
 	KeepAllEvents = false
@@ -451,7 +527,7 @@ func replayMain(t *testing.T, property, harness string, run RunFunc) {
 		os.Exit(2)
 	}
 	tp := simrt.ReplayTape(rp.Tape)
-	rec := &Rec{T: t, Tape: tp}
+	rec := &Rec{T: t, Tape: tp, Property: property}
 	KeepAllEvents = true
 	run(rec)
 	hash := ""
